@@ -982,6 +982,48 @@ Proof.
   - intros e v O Hs. apply (used_pick sort A B c k seg S Hk e v O).
     change (set_of_list (canon_set sort used) v) with (mem (canon_set sort used) v) in Hs.
     apply mem_In in Hs. apply canon_set_In in Hs; [exact Hs | exact S].
-  - intros ev ev'. eapply picks_ok_spaced. exact G2.
+  - intros ev ev'. apply (picks_ok_spaced (mem cands) seg k Hk _ _ _ G2).
   - intros ev ev' He He'. destruct (G3 ev He) as [([] & _)|(_ & Hall)]. apply Hall. exact He'.
+Qed.
+
+(* ================================================================ G. remaining pinned statements *)
+Lemma find_candidate_kmers_multi_spec_proof : forall sort contigs k,
+  (forall l, Permutation (sort l) l /\ StronglySorted N.le (sort l)) -> 1 <= k <= 32 ->
+  StronglySorted N.lt (find_candidate_kmers_multi_gen sort contigs k) /\
+  forall v, In v (find_candidate_kmers_multi_gen sort contigs k) <->
+            cnt (concat (map (kmers_spec k) contigs)) v = 1%nat.
+Proof.
+  intros sort contigs k S Hk. unfold find_candidate_kmers_multi_gen. split.
+  - unfold remove_non_singletons. apply (remove_non_singletons_spec_proof (sort (all_kmers contigs k))). apply S.
+  - intro v. rewrite singletons_of_sorted by apply S.
+    rewrite (perm_cnt _ _ v (proj1 (S _))). rewrite all_kmers_spec by exact Hk. reflexivity.
+Qed.
+
+Lemma find_candidate_kmers_one_proof : forall sort contig k,
+  find_candidate_kmers_gen sort contig k = find_candidate_kmers_multi_gen sort [contig] k.
+Proof.
+  intros. unfold find_candidate_kmers_gen, find_candidate_kmers_multi_gen, all_kmers. cbn [map concat].
+  rewrite app_nil_r. reflexivity.
+Qed.
+
+(* the streaming variants skip empty records, the in-memory one does not: no difference *)
+Definition nonempty (c : list N) : bool := match c with [] => false | _ :: _ => true end.
+
+Lemma concat_map_skip_nil {B} (f : list N -> list B) l : f [] = [] ->
+  concat (map f (filter nonempty l)) = concat (map f l).
+Proof.
+  intro H. induction l as [|c l IH]; [reflexivity|]. cbn [filter].
+  destruct c as [|a c]; cbn [nonempty map concat]; [rewrite H; exact IH | rewrite IH; reflexivity].
+Qed.
+
+Lemma enumerate_nil k : enumerate_kmers [] k = [].
+Proof. unfold enumerate_kmers. destruct (lenN [] <? k); reflexivity. Qed.
+
+Lemma skip_empty_proof : forall sort contigs k seg,
+  determine_splitters_gen sort (filter nonempty contigs) k seg = determine_splitters_gen sort contigs k seg.
+Proof.
+  intros sort contigs k seg. rewrite !det_unfold.
+  assert (E : all_kmers (filter nonempty contigs) k = all_kmers contigs k).
+  { unfold all_kmers. apply concat_map_skip_nil. apply enumerate_nil. }
+  rewrite E. rewrite concat_map_skip_nil by reflexivity. reflexivity.
 Qed.
